@@ -229,6 +229,20 @@ def _pow2(k):
     return z3.IntVal(1 << k)
 
 
+def _div_const(t, c):
+    """t div c for a positive constant c in a canonical chained form: divisions by powers of 256 become a chain of
+    divisions by 256 (digit extraction and positional reconstruction then stay linear, step by step, for the solver)."""
+    k = 0
+    while c % 256 == 0 and c > 1:
+        c //= 256
+        k += 1
+    for _ in range(k):
+        t = t / z3.IntVal(256)
+    if c > 1:
+        t = t / z3.IntVal(c)
+    return t
+
+
 class SInt(Sym):
     __slots__ = ()
 
@@ -305,7 +319,7 @@ class SInt(Sym):
         self._divcheck(bt)
         c = concrete_int(o)
         if c is not None and c > 0:
-            return SInt(self.t / bt)
+            return SInt(_div_const(self.t, c))
         return SInt(_floordiv(self.t, bt))
 
     def __rfloordiv__(self, o):
@@ -356,26 +370,33 @@ class SInt(Sym):
     def __lshift__(self, o):
         c = concrete_int(o)
         if c is None:
-            raise Unsupported('shift by symbolic amount')
+            c = small_int_case(_ctx(), o)
         if c < 0:
             from .interp import py_raise
             py_raise(ValueError('negative shift count'))
         return SInt(self.t * _pow2(c))
 
     def __rlshift__(self, o):
-        raise Unsupported('shift by symbolic amount')
+        # o << self  (self is the symbolic shift amount)
+        from .libmodels import pow2_sym
+        ctx = _ctx()
+        k = small_int_case(ctx, self, soft=True)
+        if k is not None:
+            return lift(o) * (1 << k) if is_sym(o) else o << k
+        return pow2_sym(ctx, self) * o
 
     def __rshift__(self, o):
         c = concrete_int(o)
         if c is None:
-            raise Unsupported('shift by symbolic amount')
+            c = small_int_case(_ctx(), o)
         if c < 0:
             from .interp import py_raise
             py_raise(ValueError('negative shift count'))
-        return SInt(self.t / _pow2(c))   # z3 div by positive = floor = Python >>
+        return SInt(_div_const(self.t, 1 << c))   # z3 div by positive = floor = Python >>
 
     def __rrshift__(self, o):
-        raise Unsupported('shift by symbolic amount')
+        k = small_int_case(_ctx(), self)
+        return lift(o) >> k if is_sym(o) else o >> k
 
     def __and__(self, o):
         c = concrete_int(o)
@@ -410,12 +431,16 @@ class SInt(Sym):
     __rand__ = __and__
 
     def __or__(self, o):
-        raise Unsupported('int | symbolic (use sym.bit_or_disjoint in a model)')
+        if not is_intlike(o):
+            return NotImplemented
+        return bit_or(_ctx(), self, o)
 
     __ror__ = __or__
 
     def __xor__(self, o):
-        raise Unsupported('int ^ symbolic')
+        if not is_intlike(o):
+            return NotImplemented
+        return bit_xor(_ctx(), self, o)
 
     __rxor__ = __xor__
 
@@ -443,6 +468,74 @@ class SInt(Sym):
         return (not r) if isinstance(r, bool) else SBool(z3.Not(r.t))
 
     __hash__ = object.__hash__
+
+
+def proves(ctx, cond):
+    """True iff the current path condition entails cond (solver says pc and not cond is unsat)."""
+    if isinstance(cond, SBool):
+        cond = cond.t
+    if isinstance(cond, bool):
+        return cond
+    c = z3.simplify(cond)
+    if z3.is_true(c):
+        return True
+    if z3.is_false(c):
+        return False
+    return ctx.solver.check(z3.Not(c)) == z3.unsat
+
+
+def small_int_case(ctx, v, lo=0, hi=80, soft=False):
+    """Concretise a symbolic int that is provably within [lo, hi] by forking over its values."""
+    c = concrete_int(v)
+    if c is not None:
+        return c
+    vt = as_int_term(v)
+    if not proves(ctx, z3.And(vt >= lo, vt <= hi)):
+        if soft:
+            return None
+        raise Unsupported('symbolic shift/size amount not provably within [%d, %d]' % (lo, hi))
+    for k in range(lo, hi + 1):
+        if ctx.branch(vt == k):
+            return k
+    raise Unsupported('small_int_case fell through')
+
+
+def bit_or(ctx, a, b):
+    """a | b on Python ints where the operands are provably bit-disjoint (then | is +), or trivial."""
+    ca, cb = concrete_int(a), concrete_int(b)
+    if ca is not None and cb is not None:
+        return ca | cb
+    if ca is not None:
+        a, b, ca, cb = b, a, cb, ca
+    at, bt = as_int_term(a), as_int_term(b)
+    if cb == 0:
+        return SInt(at)
+    ks = [8]
+    if cb is not None and cb > 0:
+        low = (cb & -cb).bit_length() - 1       # lowest set bit of the mask
+        ks = [low, cb.bit_length()]
+    for k in ks:
+        m = z3.IntVal(1 << k)
+        if proves(ctx, z3.And(at >= 0, at < m, bt % m == 0)):
+            return SInt(at + bt)
+        if proves(ctx, z3.And(bt >= 0, bt < m, at % m == 0)):
+            return SInt(at + bt)
+    raise Unsupported('int | int with operands not provably bit-disjoint')
+
+
+def bit_xor(ctx, a, b):
+    """a ^ b where one operand is provably 0 or -1 (x ^ 0 == x, x ^ -1 == ~x), or provably bit-disjoint."""
+    ca, cb = concrete_int(a), concrete_int(b)
+    if ca is not None and cb is not None:
+        return ca ^ cb
+    at, bt = as_int_term(a), as_int_term(b)
+    for x, y in ((at, bt), (bt, at)):
+        if proves(ctx, z3.Or(y == 0, y == -1)):
+            return SInt(z3.If(y == 0, x, -x - 1))
+    try:
+        return bit_or(ctx, a, b)       # disjoint bits: xor == or == +
+    except Unsupported:
+        raise Unsupported('int ^ int outside the supported cases')
 
 
 def to_real(v):
@@ -569,6 +662,35 @@ def _clamp_slice(n, lo, hi):
     return z3.simplify(s), z3.simplify(ln)
 
 
+def flatten_units(t):
+    """Element terms of a sequence term that is a concatenation of unit/empty terms (ite of equal-length
+    unit sequences is pushed down to the elements), else None."""
+    def walk(e):
+        k = e.decl().kind()
+        if k == z3.Z3_OP_SEQ_EMPTY:
+            return []
+        if k == z3.Z3_OP_SEQ_UNIT:
+            return [e.arg(0)]
+        if k == z3.Z3_OP_SEQ_CONCAT:
+            out = []
+            for c in e.children():
+                r = walk(c)
+                if r is None:
+                    return None
+                out.extend(r)
+            return out
+        if k == z3.Z3_OP_ITE:
+            a, b = walk(e.arg(1)), walk(e.arg(2))
+            if a is None or b is None or len(a) != len(b):
+                return None
+            return [z3.If(e.arg(0), x, y) for x, y in zip(a, b)]
+        return None
+    try:
+        return walk(t)
+    except Exception:
+        return None
+
+
 class _SeqBase(Sym):
     __slots__ = ()
 
@@ -588,6 +710,15 @@ class _SeqBase(Sym):
         ot = self._same(o)
         if ot is None:
             return False
+        if not isinstance(self, SStr):
+            # both sides of fixed length on this path: compare element-wise (keeps the query in integer arithmetic)
+            a, b = flatten_units(self.t), flatten_units(ot)
+            if a is not None and b is not None:
+                if len(a) != len(b):
+                    return False
+                if not a:
+                    return True
+                return SBool(z3.And(*[x == y for x, y in zip(a, b)]))
         return SBool(self.t == ot)
 
     def __ne__(self, o):
@@ -618,12 +749,43 @@ class _SeqBase(Sym):
                 raise Unsupported('extended slice on symbolic sequence')
             s, ln = _clamp_slice(n, k.start, k.stop)
             return type(self)(z3.SubSeq(self.t, s, ln))
+        ck = concrete_int(k)
+        if ck is not None and ck >= 0 and not isinstance(self, SStr):
+            pre = prefix_units(self.t, ck + 1)
+            if len(pre) > ck:
+                return self._elem(pre[ck])
         it = _norm_index(n, k)
         ctx = _ctx()
         if not ctx.branch(z3.And(it >= 0, it < n)):
             from .interp import py_raise
             py_raise(IndexError('index out of range'))
         return self._elem(self.t[it])
+
+
+def prefix_units(t, limit):
+    """Element terms of the longest prefix of the sequence term that consists of unit terms (up to `limit`)."""
+    out = []
+
+    def walk(e):
+        if len(out) >= limit:
+            return False
+        k = e.decl().kind()
+        if k == z3.Z3_OP_SEQ_EMPTY:
+            return True
+        if k == z3.Z3_OP_SEQ_UNIT:
+            out.append(e.arg(0))
+            return True
+        if k == z3.Z3_OP_SEQ_CONCAT:
+            for c in e.children():
+                if not walk(c):
+                    return False
+            return True
+        return False
+    try:
+        walk(t)
+    except Exception:
+        pass
+    return out
 
 
 class SBytes(_SeqBase):
@@ -760,7 +922,7 @@ def int_to_bytes_be(xt, width, signed):
         xt = z3.If(xt < 0, xt + _pow2(8 * width), xt)
     units = []
     for k in range(width - 1, -1, -1):
-        units.append(z3.Unit((xt / _pow2(8 * k)) % 256))
+        units.append(z3.Unit(_div_const(xt, 1 << (8 * k)) % 256))
     return units[0] if width == 1 else z3.Concat(*units)
 
 
